@@ -63,7 +63,7 @@ class Session:
         self.ops.append("conn " + name)
         if will:
             k, t, m, retain = will
-            self.ops.append("connect %s %s 1 %d %s %s %s" % (name, hx(user), 1 if retain else 0, k, hx(b"/" + t), hx(m)))
+            self.ops.append("connect %s %s 1 %d %s %s %s" % (name, hx(user), 1 if retain else 0, k, hx((b"" if k == "-" else b"/") + t), hx(m)))
         else:
             self.ops.append("connect %s %s 0 0 - - -" % (name, hx(user)))
 
